@@ -42,7 +42,7 @@ checks = {
  "C12": (A, "model_checking", "golden images of the pinned release as start states of the image-graph search; decoder bound to released bytes",
    "22 images written by commit 4b82afd (5 key types x 4 histories, and a history with a live key and a freed slot of every key slot class for the byte-string types) must be decoded by the independent decoder to their recorded contents, open under the current build with identical contents, stay byte-identical under read-only sessions, and keep every C01/C05/C06/C17 oracle on all successors of histories over existing and new keys (under four parameter sets); every entry of every image is also updated once from the original image and the result decoded.",
    "images were generated once from a scratch checkout of the pinned commit; releases older than that are not covered"),
- "C13": (D, "exploration", "complete enumeration of type pairs x foreign file and of all single-byte signature mutations, x 4 table sizes x 3 fill states (735360 open attempts)",
+ "C13": (D, "exploration", "complete enumeration of type pairs x foreign file and of all single-byte signature mutations, and sibling-file and short-garbage cases, x 4 table sizes x 3 fill states (738420 open attempts)",
    "Every ordered pair of key types (whole directory and single foreign file) and every one-byte change of the 16 signature bytes of each file of each type must be refused before any lookup answers Ok, leaving files byte-identical.",
    "the u64/vu64 signature collision is a recorded known finding"),
  "C14": (D, "exploration", "complete enumeration of batches up to length 4/8 over a 4-key set x 16 presence states x 5 key types",
